@@ -39,7 +39,9 @@ RULE = ('every spec of: [opt] rectangular nx,ny in 1..3 x 3 spacing patterns x 4
         'pair and the full set of specified column centres; [limits] coordinates at 9999999.99 / -999999.99 (wells '
         '99999999.9 / -9999999.9) in metres and in feet; [shipped] g1..g7 as read x atmosphere types x units x '
         'block orders; [derived] 3x2 and g7 refined by each single column and by all, reduced to each half, rotated '
-        '30 degrees, translated; g7 with the surface of each single column, each pair of consecutive columns and all '
+        '30 degrees, translated; [layers] stored layer centres that are not midpoints (a quarter up, exactly 0.0 in the '
+        'first layer, 0.0 for the atmosphere layer) x surfaces of exactly 0.00 (none, two columns, all) on a geometry '
+        'with its top at +15 x 2 conventions x 3 atmosphere types x units; g7 with the surface of each single column, each pair of consecutive columns and all '
         'columns reset.  Each spec: library write -> reference reader, library write -> library read -> '
         'compare + rewrite, reference writer (Fortran styles) -> library read.  A case is non-trivial when the '
         'geometry has at least one column and one layer; distinct = distinct spec.')
@@ -186,6 +188,24 @@ def specs_limits(tier):
     return out
 
 
+def specs_layers(tier):
+    """Layer centres that are not midpoints (a quarter up; exactly 0.0 inside the first layer; 0.0 for the
+    atmosphere layer) and surfaces of exactly 0.00, on a geometry whose top is at +15."""
+    out = []
+    for lc in (None, 'off', 'zero', 'zero-atm', 'off+zero'):
+        for sf in (None, {'cols': [0, 4], 'kind': 'zero'}, {'cols': list(range(6)), 'kind': 'zero'}):
+            for conv in (0, 1):
+                for atm in range(3):
+                    for unit in ('m', 'ft'):
+                        kw = {'ztop': 15.0}
+                        if lc:
+                            kw['lc'] = lc
+                        if sf:
+                            kw['surface'] = sf
+                        out.append(rect(3, 2, 'mixed', conv, atm, unit, **kw))
+    return out
+
+
 def specs_shipped(tier):
     files = ['g1', 'g2', 'g3', 'g4', 'g5', 'g6', 'g7'] if tier == 'thorough' else ['g5', 'g7']
     out = []
@@ -225,7 +245,8 @@ def specs_derived(tier):
 
 
 GROUPS = [('opt', specs_opt, 48), ('surf', specs_surf, 32), ('wells', specs_wells, 8), ('names', specs_names, 8),
-          ('limits', specs_limits, 2), ('shipped', specs_shipped, 64), ('derived', specs_derived, 32)]
+          ('limits', specs_limits, 2), ('layers', specs_layers, 4), ('shipped', specs_shipped, 64),
+          ('derived', specs_derived, 32)]
 
 
 def units(tier):
@@ -253,7 +274,7 @@ def build(spec):
         conv = spec['conv']
         order = spec.get('order', 'none')
         bo = {'none': None, 'layer_column': 'layer_column', 'dmplex': 'dmplex', 'dmplex>none': 'dmplex'}[order]
-        origin = [0., 0., 10.]
+        origin = [0., 0., float(spec.get('ztop', 10.))]
         if spec.get('limit'):
             origin = {'hi': [9999999.99 - 206.5, 9999999.99 - 206.5, 9999999.99],
                       'lo': [-999999.99, -999999.99, -999999.99 + 65.25],
@@ -309,13 +330,29 @@ def build(spec):
     sf = spec.get('surface')
     if sf and sf['cols']:
         L = g.layerlist
-        elev = {'above': L[0].bottom + 12.5, 'boundary': L[1].bottom, 'mid': L[2].centre, 'lowedge': L[2].bottom + 0.01}
+        elev = {'above': L[0].bottom + 12.5, 'boundary': L[1].bottom, 'mid': L[2].centre, 'lowedge': L[2].bottom + 0.01,
+                'zero': 0.0}
         kinds = ['above', 'boundary', 'mid', 'lowedge']
         for i in sf['cols']:
             col = g.columnlist[i]
             k = sf['kind'] if sf['kind'] != 'mixed' else kinds[i % 4]
             col.surface = elev[k]
             g.set_column_num_layers(col)
+    lc = spec.get('lc')
+    if lc:
+        # stored layer centres need not be midpoints: the file carries them explicitly
+        L = g.layerlist
+        if lc == 'off':
+            for lay in L[1:]:
+                lay.centre = lay.bottom + 0.25 * (lay.top - lay.bottom)
+        elif lc == 'zero':
+            L[1].centre = 0.0
+        elif lc == 'zero-atm':
+            L[0].centre = 0.0
+        elif lc == 'off+zero':
+            for lay in L[2:]:
+                lay.centre = lay.bottom + 0.25 * (lay.top - lay.bottom)
+            L[1].centre = 0.0
     wl = spec.get('wells')
     if wl:
         b = g.bounds
@@ -556,11 +593,19 @@ def cmp_mem(D, D2, F, coords=True):
         F.add('layer.name', 'layer names %r came back as %r' % ([l[0] for l in D['layers']],
                                                                [l[0] for l in D2['layers']]))
     elif coords:
-        for (n, b, c), (n2, b2, c2) in zip(D['layers'], D2['layers']):
+        for i, ((n, b, c), (n2, b2, c2)) in enumerate(zip(D['layers'], D2['layers'])):
             if not close(b2, b, t2):
                 F.add('layer.bottom', 'layer %r bottom %r came back as %r' % (n, b, b2))
             if not close(c2, c, t2):
-                F.add('layer.centre', 'layer %r centre %r came back as %r' % (n, c, c2))
+                cls = None
+                if c == 0.0:
+                    # a stored 0.00 is where a reader may confuse 'zero' with 'blank': say which 0.0 it was
+                    if i == 0:
+                        cls = 'stored-centre-0.0,first-layer,%s' % ('equals-bottom' if b == 0.0 else 'differs-from-bottom')
+                    else:
+                        mid = 0.5 * (b + D['layers'][i - 1][1])
+                        cls = 'stored-centre-0.0,%s' % ('is-the-midpoint' if mid == 0.0 else 'not-the-midpoint')
+                F.add('layer.centre', 'layer %r centre %r came back as %r' % (n, c, c2), cls)
     if [n for n, e in D['surface']] != [n for n, e in D2['surface']]:
         F.add('surface.columns', 'columns with non-default surface %r came back as %r'
               % ([n for n, e in D['surface']][:8], [n for n, e in D2['surface']][:8]))
@@ -708,7 +753,8 @@ def evaluate(spec, tier='thorough'):
                     g2.write(f2)
                 with open(f2, newline='') as fh:
                     bytes2 = fh.read()
-                if bytes2 != bytes1:
+                if bytes2 != bytes1 and not B.items:
+                    # (when the re-read geometry already differs, a different second file is the same finding)
                     l1, l2 = bytes1.split('\n'), bytes2.split('\n')
                     k = next((i for i, (a_, b_) in enumerate(zip(l1, l2)) if a_ != b_), min(len(l1), len(l2)))
                     B2 = Findings('rewrite', ucls)
@@ -816,7 +862,7 @@ def as_is_check(spec):
     if [(n, b) for n, b, c in D['layers']] != [(nm(t, lens[1]), b[0] * scale) for t, b, c in R['layers']]:
         F.add('layers', 'layers differ from the file')
     for (n, b, c), (t, rb, rc) in zip(D['layers'], R['layers']):
-        if rc[0] and not close(c, rc[0] * scale, 0):
+        if rc[0] is not None and not close(c, rc[0] * scale, 0):
             F.add('layer.centre', 'layer %r centre %r, file says %r' % (n, c, rc[0]))
     want_surf = {}
     for t, e in R['surface']:
